@@ -5,6 +5,8 @@
 (*   dirty), enact_plan, recovery (replay + refresh_metadata).  Serves C06 (storage of an overwritten / removed  *)
 (*   value is released and reused), C14 (every slot below the fill mark is in exactly one live chain or on the   *)
 (*   free list exactly once; no unbounded growth), C02 (recovery restores the allocation state).                 *)
+(* Counting columns (RC): a Set of a present key / a Dereference above one only log the entry again.              *)
+(* Crash: a process crash keeps every closed record, a power loss drops the ones written since the last flush.   *)
 (* The model predicts ADDRESSES: the replay (pdbh slots-replay) compares fill marks, free-list order and the      *)
 (* chain of slots of every key with the real files after every step.                                             *)
 EXTENDS Naturals, Sequences, FiniteSets, TLC, Json
